@@ -10,9 +10,9 @@ Definition q (n : Z) (d : positive) : F := qmk n d.
 Definition num_state (mode : nat) (cu2 floor2 k2max eps2 : F) (o : state_obs F) : N :=
   N.of_nat (check_state mode cu2 floor2 k2max eps2 o).
 
-Definition num_rankdef (cu2 floor2 k2max eps2 : F) (n m : nat) (w : option (seq F)) (Phi Y : smx F)
+Definition num_rankdef (mode : nat) (cu2 floor2 k2max eps2 : F) (n m : nat) (w : option (seq F)) (Phi Y : smx F)
            (sel : seq nat) (C : smx F) (R : seq F) : N :=
-  N.of_nat (check_rankdef cu2 floor2 k2max eps2 n m w Phi Y sel C R).
+  N.of_nat (check_rankdef mode cu2 floor2 k2max eps2 n m w Phi Y sel C R).
 
 Definition num_stats (cu2 floor2 k2max : F) (n m p : nat) (w : option (seq F)) (Phi : smx F)
            (Ds : seq (smx F)) (y c : seq F) (o : stats_obs F) : N :=
@@ -26,6 +26,9 @@ Definition show_q (x : F) : Z * positive := (Qnum (this x), Qden (this x)).
 Definition show_coeffs n m w Phi Y : option (seq (seq (Z * positive))) :=
   if spec_coeffs n m w Phi Y is Some C then Some [seq [seq show_q x | x <- c] | c <- C] else None.
 
+Definition num_band (cu2 floor2 : F) (n : nat) (t : F) (usigma radius : seq F) : N :=
+  N.of_nat (check_band cu2 floor2 n t usigma radius).
+
 (* diagnostics for replay files: floor(2^k * x) *)
 Definition scaled (k : N) (x : F) : Z := Qfloor (this (x * qmk (2 ^ Z.of_N k) 1)%R).
 Definition dbg_cov (cu2 floor2 k2max : F) (n m p : nat) (w : option (seq F)) (Phi : smx F)
@@ -37,3 +40,16 @@ Definition dbg_cov (cu2 floor2 k2max : F) (n m p : nat) (w : option (seq F)) (Ph
   let r := sfro2 (ssub (smul q G cov) (sscale (sb_chi2 o) (sident F q))) in
   let d := (sfro2 G * sfro2 cov)%R in
   [:: scaled 120 (r / d)%R; scaled 120 (cu2 * (n * q)%N%:R)%R; scaled 20 (d / (sb_chi2 o * sb_chi2 o))%R ].
+
+Definition dbg_rankdef (cu2 floor2 k2max eps2 : F) (n m : nat) (w : option (seq F)) (Phi Y : smx F)
+           (sel : seq nat) (Cimpl : smx F) (Rimpl : seq F) : seq Z :=
+  let A := wscale w Phi in
+  let B := wscale w Y in
+  match spec_minnorm n m A B sel with
+  | None => [:: Z.opp (Zpos xH)]
+  | Some mn =>
+      let t2 := tol2_solve cu2 n m (mn_k2 mn) in
+      [:: scaled 120 (svnrm2 (svsub (flatten Cimpl) (flatten (mn_C mn)))); scaled 120 (t2 * svnrm2 (flatten (mn_C mn)))%R;
+          scaled 10 (mn_k2 mn); scaled 10 (mn_smin2inv mn) ]
+         ++ [seq scaled 40 x | x <- flatten (mn_C mn)]
+  end.
